@@ -155,6 +155,10 @@ func checkC05(c *Ctx) {
 			}
 			label := fmt.Sprintf("%s:error-exit#%d", t.sec, i+1)
 			if kind == "" {
+				if A.Infeasible(r.Block()) {
+					c.OK("C05-R2", label+":unreachable", r.Pos(), "defensive exit that can never be taken (its guard contradicts what is known at that point)")
+					continue
+				}
 				c.Fail("C05-R2", label+":unlisted-rejection", r.Pos(), "refuted", "the decoder rejects for a reason other than {message too short for its fields, wrong message type} (or the length test is not 'message bits < sum of field widths')")
 			} else {
 				kinds[kind] = true
